@@ -100,8 +100,11 @@ static char scenario_buf[64];
 static uint64_t n_preempt, n_forced, n_handoff, n_idlejump, n_fair;
 static void tso_flush_me(void);
 static void tso_maybe_flush(void);
+static void tso_commit_pending(void);
+static int tso_plain_store(const void* a, size_t n);
 static int n_stalled;
 static uint64_t n_foreign_mgr, n_tso_buffered, n_tso_forwarded;
+static uint64_t n_tso_plain;
 static int amp_target = -1;
 /* PCT (probabilistic concurrency testing) schedules: strict thread priorities, d-1 random priority change
  * points; complements uniform random preemption for bugs that need few, precisely placed switches */
@@ -326,6 +329,7 @@ void* calloc(size_t a, size_t b) {
 void free(void* p) {
   if (!p) return;
   if (!alloc_in_arena(p)) return;
+  if (sim_active) tso_flush_me(); /* the freeing thread's delayed stores must not land in the poisoned block */
   ahdr_t* h = (ahdr_t*)p - 1;
   if (h->magic == AFREED) sim_violation("MEM-double-free", "block %p size %lu freed twice", p, (unsigned long)h->size);
   if (h->magic == AHELD) { /* logically freed exactly once; contents and shadow left alone */
@@ -348,6 +352,7 @@ void free(void* p) {
 }
 void* realloc(void* p, size_t n) {
   if (!p) return malloc(n);
+  if (sim_active) tso_flush_me();
   ahdr_t* h = (ahdr_t*)p - 1;
   void* q = malloc(n);
   if (q) {
@@ -447,6 +452,7 @@ void finish(int code, const char* verdict, const char* oracle, const char* detai
   if (n_foreign_mgr) sim_probe("foreign_manager_access", n_foreign_mgr);
   if (n_tso_buffered) sim_probe("tso_stores_buffered", n_tso_buffered);
   if (n_tso_forwarded) sim_probe("tso_loads_forwarded", n_tso_forwarded);
+  if (n_tso_plain) sim_probe("tso_plain_stores_buffered", n_tso_plain);
   if (compact_ok && code == 0) {
     char* b = sim_internal_alloc(8192);
     size_t k = snprintf(b, 8192, "ok %lu %lu %lu %lu %016lx %016lx %d %d %lu %lu %lu %lu %lu %lu|", run_seed, g_steps, busy_steps, now_ns, thash,
@@ -722,6 +728,7 @@ static void account_step(int kind) {
 static void sched_point_inner(int kind);
 void sim_sched_point(int kind) {
   if (!sim_active || me < 0) return;
+  tso_commit_pending();
   const int saved_errno = errno; /* the runtime's own system calls must not leak into the code under test */
   sched_point_inner(kind);
   errno = saved_errno;
@@ -810,6 +817,7 @@ void sim_register_manager(void* m, size_t size) {
 }
 void sim_access(const void* addr, size_t size, int kind) {
   if (!sim_active || me < 0) return;
+  tso_commit_pending();
   alloc_check(addr, size);
   amp_target = -1;
   if (fiber_mode && !sched_replay && !preempt_off) {
@@ -828,6 +836,7 @@ void (*sim_hook_spin)(void);
 static void spin_hint_inner(void);
 void fiber_verif_spin_hint(void) {
   if (!sim_active || me < 0) return;
+  tso_commit_pending();
   const int saved_errno = errno;
   spin_hint_inner();
   errno = saved_errno;
@@ -979,11 +988,11 @@ int __wrap_pthread_join(pthread_t th_, void** ret) {
 static void tso_plain(const void* a, size_t n, int is_write);
 #define RW(n)                                                                    \
   void __tsan_read##n(void* a) { sim_access(a, n, K_PLAIN); tso_plain(a, n, 0); }                    \
-  void __tsan_write##n(void* a) { sim_access(a, n, K_PLAIN); tso_plain(a, n, 1); }                   \
+  void __tsan_write##n(void* a) { sim_access(a, n, K_PLAIN); if (!tso_plain_store(a, n)) tso_plain(a, n, 1); }                   \
   void __tsan_unaligned_read##n(void* a) { sim_access(a, n, K_PLAIN); tso_plain(a, n, 0); }          \
   void __tsan_unaligned_write##n(void* a) { sim_access(a, n, K_PLAIN); tso_plain(a, n, 1); }         \
   void __tsan_volatile_read##n(void* a) { sim_access(a, n, K_PLAIN); tso_plain(a, n, 0); }           \
-  void __tsan_volatile_write##n(void* a) { sim_access(a, n, K_PLAIN); tso_plain(a, n, 1); }
+  void __tsan_volatile_write##n(void* a) { sim_access(a, n, K_PLAIN); if (!tso_plain_store(a, n)) tso_plain(a, n, 1); }
 RW(1) RW(2) RW(4) RW(8) RW(16)
 void __tsan_write_range(void* a, long n) { sim_access(a, n > 0 ? n : 1, K_PLAIN); tso_plain(a, n > 0 ? n : 1, 1); }
 void __tsan_read_range(void* a, long n) { sim_access(a, n > 0 ? n : 1, K_PLAIN); tso_plain(a, n > 0 ? n : 1, 0); }
@@ -1043,7 +1052,74 @@ static void tso_maybe_flush(void) { /* a recorded, replayable decision like any 
   if (tso_on && me >= 0 && SB[me].n && fault_draw(F_TSO_FLUSH, 4, 1)) sb_flush(me);
 }
 static void tso_flush_me(void) {
-  if (tso_on && me >= 0 && SB[me].n) sb_flush(me);
+  if (!tso_on || me < 0) return;
+  tso_commit_pending();
+  if (SB[me].n) sb_flush(me);
+}
+void sim_tso_sync(void) { tso_flush_me(); }
+/* Plain stores (2.11, second extension). The compiler's hook runs before the store instruction, so the
+ * runtime cannot keep the store from reaching memory; instead it remembers the old contents, lets the
+ * store happen, and at the thread's next entry into the runtime - before any other thread can run -
+ * puts the old contents back and moves the new value into the store buffer. Only naturally aligned
+ * 1/2/4/8-byte stores into the arena (heap objects) are delayed; every other store drains the buffer
+ * first, which keeps the thread's stores in order. */
+static int tso_plain_on;
+static struct {
+  volatile void* a;
+  uint64_t old;
+  int sz;
+} PEND[MAXT];
+static uint64_t rd_raw(volatile void* a, int sz) {
+  switch (sz) {
+    case 1: return *(volatile uint8_t*)a;
+    case 2: return *(volatile uint16_t*)a;
+    case 4: return *(volatile uint32_t*)a;
+    default: return *(volatile uint64_t*)a;
+  }
+}
+static void wr_raw(volatile void* a, uint64_t v, int sz) {
+  switch (sz) {
+    case 1: *(volatile uint8_t*)a = (uint8_t)v; break;
+    case 2: *(volatile uint16_t*)a = (uint16_t)v; break;
+    case 4: *(volatile uint32_t*)a = (uint32_t)v; break;
+    default: *(volatile uint64_t*)a = v;
+  }
+}
+void sim_tso_enable_plain(void) {
+  sim_tso_enable();
+  tso_plain_on = 1;
+}
+static void tso_commit_pending(void) {
+  if (!tso_plain_on || me < 0 || !PEND[me].a) return;
+  volatile void* a = PEND[me].a;
+  const int sz = PEND[me].sz;
+  PEND[me].a = NULL;
+  const uint64_t nv = rd_raw(a, sz);
+  if (nv == PEND[me].old) return; /* a store of the value already there is invisible either way */
+  wr_raw(a, PEND[me].old, sz);
+  if (SB[me].n == 8) sb_flush(me);
+  sbe_t* e = &SB[me].e[SB[me].n++];
+  e->a = a;
+  e->v = nv;
+  e->sz = sz;
+  n_tso_plain++;
+}
+/* called from the write hook after the scheduling point, immediately before the store executes */
+static int tso_plain_store(const void* a, size_t n) {
+  if (!tso_plain_on || me < 0 || !sim_active || fiber_mode) return 0;
+  if (n > 8 || ((uintptr_t)a & (n - 1)) || !alloc_in_arena(a)) return 0;
+  /* an older buffered store that overlaps without being the same cell: drain, keep it simple */
+  for (int i = 0; i < SB[me].n; i++) {
+    sbe_t* e = &SB[me].e[i];
+    if ((uintptr_t)e->a < (uintptr_t)a + n && (uintptr_t)a < (uintptr_t)e->a + e->sz && !(e->a == a && e->sz == (int)n)) {
+      sb_flush(me);
+      break;
+    }
+  }
+  PEND[me].a = (volatile void*)a;
+  PEND[me].sz = (int)n;
+  PEND[me].old = rd_raw((volatile void*)a, (int)n);
+  return 1;
 }
 static int tso_store(volatile void* a, uint64_t v, int sz, int mo) {
   if (!tso_on || me < 0 || !sim_active || mo == __ATOMIC_SEQ_CST) return 0;
@@ -1163,9 +1239,8 @@ static void tso_plain(const void* a, size_t n, int is_write) {
   }
 AT(8, uint8_t) AT(16, uint16_t) AT(32, uint32_t) AT(64, uint64_t)
 void __tsan_atomic_thread_fence(int mo) {
-  (void)mo;
   sim_sched_point(K_FENCE);
-  tso_flush_me();
+  if (mo == __ATOMIC_SEQ_CST || !tso_plain_on) tso_flush_me(); /* weaker fences emit no instruction on x86 */
 }
 void __tsan_atomic_signal_fence(int mo) { (void)mo; }
 
@@ -1187,6 +1262,8 @@ typedef struct {
   uint32_t schedules;
   int q_owner;          /* kernel thread that owns the run queue currently holding it (-1: none / unknown) */
   uint64_t q_pushed_at; /* fiber switches on that thread when it was pushed there */
+  int q_prev_owner;     /* the previous push: same thread, and the fiber has not run since? then the wait goes on */
+  uint32_t q_prev_sw;
 } gf_t;
 static gf_t G[MAXF];
 static int ng;
@@ -1375,7 +1452,12 @@ void __wrap_wsd_work_stealing_deque_push_bottom(void* d, void* p) {
     if (G[i].inq) sim_violation("C02-slot-duplicate", "fiber #%d pushed to a run queue while already in one", i);
     G[i].inq = 1;
     G[i].q_owner = me; /* only the owning kernel thread pushes to a run queue */
-    G[i].q_pushed_at = fsw_thread[me];
+    /* taken out and put back by the same thread without having run, although its suspension was complete:
+     * the fiber has been ready all along and keeps its count (a fiber put back because its context is still
+     * being saved elsewhere starts afresh) */
+    if (!(G[i].g == G_SAVED && G[i].q_prev_owner == me + 1 && G[i].q_prev_sw == G[i].switch_ins + 1)) G[i].q_pushed_at = fsw_thread[me];
+    G[i].q_prev_owner = me + 1;
+    G[i].q_prev_sw = G[i].switch_ins + 1;
   }
   __real_wsd_work_stealing_deque_push_bottom(d, p);
 }
